@@ -24,7 +24,7 @@ RULE = ("case = seeded compatible master family (4-10 glyphs; 1 axis with 2-4 ma
         "intermediate ones and the default anywhere, or 2 axes with corner masters with/without "
         "the (1,1) corner; optional sparse layer master, missing/extra glyph, axis maps, per-master "
         "anchors / component offsets and 2x2 / info numbers / aligned or ragged kerning with "
-        "exceptions, 0-2 rules) x UFO library x round_geometry x list of instance locations (all "
+        "exceptions, 0-2 rules; 10 %: the default source points at a NAMED layer of its UFO) x UFO library x round_geometry x list of instance locations (all "
         "source locations, design-space corners, rule boundaries, interior points) x repeated "
         "generations; distinct = sha1 of the case description; non-trivial = at least one instance at "
         "a master location AND one interpolated instance were compared number by number")
